@@ -4,10 +4,16 @@ from .w1common import CODE, mk, msgs, run_scenarios, replay as _replay, W1_ASSUM
 LEVEL = "model_checking"
 
 
+def received(app):
+    """what the application received, in the order of its get_message() calls (explicit gets) or of delivery"""
+    explicit = [slot[3] for slot in app.extra if isinstance(slot, list) and slot[0] == "get:message" and slot[2] == "ok"]
+    return explicit if explicit or not app.auto_get else msgs(app)
+
+
 def mon_prefix(w):
     for c in w.clients:
         peer = w.clients[1 - c.ci]
-        got = msgs(c.app)
+        got = received(c.app) if c.app.mode != "delegate" else msgs(c.app)
         sent = peer.app.sent
         if got != sent[:len(got)]:
             w.flag("prefix", "c%d" % c.ci,
@@ -20,10 +26,15 @@ def fin_equal(w):
         peer = w.clients[1 - c.ci]
         if any(k == "closed" for k, v in c.app.obs) or any(k == "closed" for k, v in peer.app.obs):
             continue
-        if msgs(c.app) != peer.app.sent:
+        got = received(c.app) if c.app.mode != "delegate" else msgs(c.app)
+        pending = [slot for slot in c.app.extra if isinstance(slot, list) and slot[0] == "get:message" and slot[2] == "pending"]
+        want = peer.app.sent
+        if not c.app.auto_get and c.app.mode != "delegate":
+            ngets = sum(1 for t in c.threads for op in t if op[0] == "get" and op[1] == "message")
+            want = peer.app.sent[:ngets]
+        if got != want:
             out.append(dict(oracle="delivered-all", sig="c%d" % c.ci,
-                            msg="quiescent, both connected, but client %d has %r of %r" % (
-                                c.ci, msgs(c.app), peer.app.sent)))
+                            msg="quiescent, both connected, but client %d has %r of %r" % (c.ci, got, want)))
     return out
 
 
@@ -47,8 +58,19 @@ B1 = [b"bravo"]
 B2 = [b"", b"b1"]
 
 
+def late_reader_cfg(n_peer, n_gets, fine=(0,), reorder=0):
+    """client 0 uses get_message() explicitly and may call it late, so that records pile up unclaimed"""
+    peer_msgs = [b"p%d" % i for i in range(n_peer)]
+    return dict(
+        clients=[dict(threads=[[("set_code", CODE)], [("get", "message")] * n_gets], drops=0, mode="deferred", auto_get=False),
+                 dict(threads=[[("set_code", CODE)] + [("send", m) for m in peer_msgs]], drops=0, mode="deferred")],
+        explored=("down", "up", "api", "connect", "reorder"), coarse=[i for i in (0, 1) if i not in fine], reorder=reorder,
+        monitors=[mon_prefix], final_monitors=[fin_equal])
+
+
 def scenarios(tier):
     S = []
+    S.append(mk("late-reader-3msgs-3gets", late_reader_cfg(3, 3, reorder=0 if tier == "quick" else 1), max_depth=90, max_states=300000))
     if tier == "quick":
         S.append(mk("bfs-2+1-fineA", cfg(A2, B1, fine=(0,)), max_depth=80))
         S.append(mk("bfs-1+2-fineB", cfg(B1, B2, fine=(1,)), max_depth=80))
